@@ -2,7 +2,7 @@
    translator harness/translate_rewire.py extracts from the AST of bct/algorithms/reference.py on every run
    (Gen/RewireTable.v), and its link to the engine of Model/Rewire.v: the engine's swap IS the execution of the
    table's write list, its index patches and four-distinct test ARE the table's. *)
-From Coq Require Import ZArith List Arith Bool.
+From Coq Require Import ZArith List Arith Bool QArith.
 From BCT Require Import Base.Mat Base.ListX Model.Rewire.
 Import ListNotations.
 Open Scope Z_scope.
@@ -28,6 +28,11 @@ Definition spatch := (bool * bool * sym)%type.
 Definition spatch_eqb (p q : spatch) : bool :=
   (Bool.eqb (fst (fst p)) (fst (fst q)) && Bool.eqb (snd (fst p)) (snd (fst q)) && sym_eqb (snd p) (snd q))%bool.
 
+(* a = i[e1] : (variable, (array is j?, index is e1?)) *)
+Definition sread := (sym * (bool * bool))%type.
+Definition sread_eqb (p q : sread) : bool :=
+  (sym_eqb (fst p) (fst q) && Bool.eqb (fst (snd p)) (fst (snd q)) && Bool.eqb (snd (snd p)) (snd (snd q)))%bool.
+
 Fixpoint list_eqb {A} (eqb : A -> A -> bool) (l1 l2 : list A) : bool :=
   match l1, l2 with
   | [], [] => true
@@ -45,7 +50,13 @@ Record src_spec := mkspec {
   ss_lattice : bool;             (* lattice condition present *)
   ss_conn : bool;                (* connectivity test present *)
   ss_mask : list scell;          (* cells of the mask B tested *)
-  ss_latt : bool                 (* permute before / inverse-permute (argsort) after *)
+  ss_latt : bool;                (* permute before / inverse-permute (argsort) after *)
+  ss_reads : list sread;         (* the endpoint reads inside the selection loop: a = i[e1]; b = j[e1]; c = i[e2]; d = j[e2] *)
+  ss_redraw : bool;              (* two draws bounded by the length of the edge list, then `while e1 == e2: e2 = rng.randint(k)` *)
+  ss_halved : bool;              (* max_attempts = np.round(n*k / (n*(n-1)/2)) instead of np.round(n*k / (n*(n-1))) *)
+  ss_loops : bool                (* `itr *= k`, `for it in range(itr)`, `att = 0`, `while att <= max_attempts`, `att += 1`
+                                    (randomize_graph_partial_und: `while nswap < maxswap`), and no write to the matrix
+                                    outside the accepted block *)
 }.
 
 Definition elsrc_eqb (x y : elsrc) : bool :=
@@ -56,7 +67,9 @@ Definition spec_eqb (s t : src_spec) : bool :=
    list_eqb spatch_eqb (ss_flip s) (ss_flip t) && list_eqb scell_eqb (ss_cond s) (ss_cond t) &&
    list_eqb swrite_eqb (ss_writes s) (ss_writes t) && list_eqb spatch_eqb (ss_patches s) (ss_patches t) &&
    Bool.eqb (ss_lattice s) (ss_lattice t) && Bool.eqb (ss_conn s) (ss_conn t) &&
-   list_eqb scell_eqb (ss_mask s) (ss_mask t) && Bool.eqb (ss_latt s) (ss_latt t))%bool.
+   list_eqb scell_eqb (ss_mask s) (ss_mask t) && Bool.eqb (ss_latt s) (ss_latt t) &&
+   list_eqb sread_eqb (ss_reads s) (ss_reads t) && Bool.eqb (ss_redraw s) (ss_redraw t) &&
+   Bool.eqb (ss_halved s) (ss_halved t) && Bool.eqb (ss_loops s) (ss_loops t))%bool.
 
 (* ---------- what the engine implements ---------- *)
 Definition writes_dir : list swrite :=
@@ -69,12 +82,16 @@ Definition cond_std : list scell := [(SA, SD); (SC, SB)].
 Definition patches_std : list spatch := [(true, true, SD); (true, false, SB)].       (* j[e1] = d; j[e2] = b *)
 Definition flip_std : list spatch := [(false, false, SD); (true, false, SC)].        (* i[e2] = d; j[e2] = c *)
 
+Definition reads_std : list sread :=                                                   (* a = i[e1]; b = j[e1]; c = i[e2]; d = j[e2] *)
+  [(SA, (false, true)); (SB, (true, true)); (SC, (false, false)); (SD, (true, false))].
+Definition mask_std : list scell := [(SA, SD); (SC, SB)].
+
 Definition spec_of (r : routine) : src_spec :=
   mkspec (if is_und r then ELtril else ELall) four_std (if is_und r then flip_std else [])
          cond_std (if is_und r then writes_und else writes_dir) patches_std
-         (is_latt r) (is_conn r) [] (is_latt r).
+         (is_latt r) (is_conn r) [] (is_latt r) reads_std true (is_latt r && is_und r) true.
 Definition spec_partial_und : src_spec :=
-  mkspec ELtriu1 four_std flip_std cond_std writes_und patches_std false false [(SA, SD); (SC, SB)] false.
+  mkspec ELtriu1 four_std flip_std cond_std writes_und patches_std false false mask_std false reads_std true false true.
 
 Definition all_routines : list routine :=
   [Randmio_dir; Randmio_dir_connected; Randmio_und; Randmio_und_connected;
@@ -98,3 +115,63 @@ Definition exec_patches (r : env) (e1 e2 : nat) (ps : list spatch) (ij : vec nat
 
 Definition eval_four (r : env) (l : list scell) : bool := forallb (fun c => negb (Nat.eqb (r (fst c)) (r (snd c)))) l.
 Definition eval_cond (r : env) (R : mat Z) (l : list scell) : bool := forallb (fun c => Z.eqb (R (r (fst c)) (r (snd c))) 0) l.
+
+
+(* ---------- one attempt, driven by a table entry ---------- *)
+(* the environment after the endpoint reads *)
+Definition read_env (reads : list sread) (i j : vec nat) (e1 e2 : nat) : env :=
+  fun sy => match find (fun r => sym_eqb (fst r) sy) reads with
+            | Some (_, (isj, ise1)) => (if isj then j else i) (if ise1 then e1 else e2)
+            | None => O
+            end.
+
+(* while True: e1, e2 drawn (e2 redrawn while equal); reads; break when the four-distinct test holds *)
+Fixpoint select_tab (four : list scell) (reads : list sread) (redraw : bool) (fuel k : nat) (ei ej : vec nat) (s : stream)
+  : option (nat * nat * stream) :=
+  match fuel with
+  | O => None
+  | S f =>
+    match s with
+    | DInt z1 :: s1 =>
+        let e1 := randint k z1 in
+        let second := if redraw then pop_e2 f k e1 s1
+                      else match s1 with DInt z2 :: s2 => Some (randint k z2, s2) | _ => None end in
+        match second with
+        | None => None
+        | Some (e2, s2) =>
+            if eval_four (read_env reads ei ej e1 e2) four then Some (e1, e2, s2)
+            else select_tab four reads redraw f k ei ej s2
+        end
+    | _ => None
+    end
+  end.
+
+(* the body of the attempt loop as the table describes it: selection, flip block (its index patches, then the re-read
+   `c = i[e2]; d = j[e2]`), rewiring condition on R and on the mask B, the extra guard g (lattice / connectivity test,
+   modelled separately), cell writes in source order, index patches *)
+Definition attempt_tab (sp : src_spec) (B : mat Z) (g : mat Z -> nat -> nat -> nat -> nat -> bool)
+           (k : nat) (st : state) (s : stream) : option (state * stream * option quad) :=
+  match select_tab (ss_four sp) (ss_reads sp) (ss_redraw sp) (length s) k (si st) (sj st) s with
+  | None => None
+  | Some (e1, e2, s1) =>
+    let r0 := read_env (ss_reads sp) (si st) (sj st) e1 e2 in
+    let a := r0 SA in let b := r0 SB in let c0 := r0 SC in let d0 := r0 SD in
+    let flipres :=
+      match ss_flip sp with
+      | [] => Some (false, s1)
+      | _ => match s1 with DFlt q :: s2 => Some (Qgtb q (1 # 2), s2) | _ => None end
+      end in
+    match flipres with
+    | None => None
+    | Some (flip, s2) =>
+      let ij1 := if flip then exec_patches (mkenv a b c0 d0) e1 e2 (ss_flip sp) (si st, sj st) else (si st, sj st) in
+      let c := if flip then fst ij1 e2 else c0 in
+      let d := if flip then snd ij1 e2 else d0 in
+      let r := mkenv a b c d in
+      let R := sR st in
+      if (eval_cond r R (ss_cond sp) && eval_cond r B (ss_mask sp) && g R a b c d)%bool then
+        let ij2 := exec_patches r e1 e2 (ss_patches sp) ij1 in
+        Some (mkst (exec_writes r (ss_writes sp) R) (fst ij2) (snd ij2), s2, Some (a, b, c, d))
+      else Some (mkst R (fst ij1) (snd ij1), s2, None)
+    end
+  end.
